@@ -72,7 +72,7 @@ func genGoodField(t *rapid.T) F {
 func genPCase(t *rapid.T) PCase {
 	c := PCase{FailAt: -1}
 	c.Kind = rapid.SampledFrom([]string{"req", "req", "req", "rsp", "rsp", "trl"}).Draw(t, "kind")
-	soup := rapid.IntRange(0, 7).Draw(t, "soup") == 0
+	soup := rapid.IntRange(0, 7).Draw(t, "soup") == 7
 	if soup {
 		n := rapid.IntRange(0, 8).Draw(t, "n")
 		for i := 0; i < n; i++ {
@@ -316,12 +316,12 @@ func genPCase(t *rapid.T) PCase {
 	// limit: far away, or around the exact size
 	size := fieldListSize(c.Fields)
 	switch rapid.IntRange(0, 15).Draw(t, "limitmode") {
-	case 0, 1, 2:
+	case 13, 14, 15:
 		d := rapid.SampledFrom([]int{-65, -33, -32, -31, -2, -1, 0, 0, 1, 2, 31, 32, 33}).Draw(t, "delta")
 		c.Limit = max(0, size+d)
-	case 3:
+	case 12:
 		c.Limit = rapid.SampledFrom([]int{0, 1, 31, 32, 33, 64, 100}).Draw(t, "small")
-	case 4:
+	case 11:
 		// limit that cuts after a prefix of the fields
 		if len(c.Fields) > 0 {
 			k := rapid.IntRange(0, len(c.Fields)).Draw(t, "cut")
@@ -333,7 +333,7 @@ func genPCase(t *rapid.T) PCase {
 	default:
 		c.Limit = rapid.SampledFrom([]int{1 << 20, 1 << 20, 10 << 20, 1<<31 - 1, 1<<62 - 1}).Draw(t, "big")
 	}
-	if rapid.IntRange(0, 11).Draw(t, "fail") == 0 {
+	if rapid.IntRange(0, 11).Draw(t, "fail") == 11 {
 		c.FailAt = rapid.IntRange(0, len(c.Fields)).Draw(t, "failat")
 	}
 	return c
